@@ -27,6 +27,7 @@ from ..core import Corr
 from ..coqrun import cnat, clist, cbool, cq
 from ..translate import quat as quat_tr
 from ..translate import kalign as kalign_tr
+from ..translate import rand3drot as rand3drot_tr
 
 PID = "C12"
 ALLOWED_AXIOMS = {
@@ -36,28 +37,37 @@ ALLOWED_AXIOMS = {
 }
 TRUSTED = [
     "translator harness/translate/quat.py (Python ast -> polynomial terms, fail-closed) for the F/U assignments of kabsch_quaternion",
-    "hand-written model coq/Model/Kabsch.v of kabsch_align (weight=None) and of the B787 candidate loop, tied by differential "
-    "execution at K = Q (this file)",
+    "translator harness/translate/kalign.py (Python ast -> let-chain, fail-closed) for the body of kabsch_align (weights included); "
+    "the generated function is PROVED equal to the hand-written model for weight=None (C12_translated_kabsch_align_is_model)",
+    "translator harness/translate/rand3drot.py (fail-closed) for the matrix algebra of util/np_rand3drot.py::random_rotation_matrix "
+    "(sin/cos/sqrt enter as arguments; C12_random_rotation_is_proper uses only sin^2+cos^2=1 and sqrt(z)^2+sqrt(2-z)^2=2)",
+    "hand-written models coq/Model/Kabsch.v (kabsch_align, B787 candidate loop), coq/Model/KabschPerm.v (_plausible_atom_orderings, "
+    "algorithm='permutative') tied by differential execution at K = Q (this file); coq/Model/KabschDriver.v (their composition: the "
+    "whole 'permutative' B787 driver, with rmsd_of = around(sqrt(ssd)*bohr2angstroms/sqrt(nat), 8) as a parameter) is a hand-written "
+    "reading of the loop of B787 whose parts are tied separately",
     "LAPACK eigh (numpy.linalg.eigh) is specified (F v_k = w_k v_k, V orthogonal, w ascending), not verified; the specification "
     "is evaluated at run time, in exact rational arithmetic, on every (F, w, V) the correspondence cases produced (tol 1e-8)",
     "binary64 rounding of the implementation is outside the model (exact rationals; tolerance 1e-8)",
     "numpy dot/sum/linalg.norm/around semantics (modelled, not verified); qcelemental.constants.bohr2angstroms read as a number",
 ]
 ASSUMPTIONS = [
-    "weight=None (unweighted) alignment; rgeom and cgeom have the same number of atoms",
+    "rgeom and cgeom have the same number of atoms; weights, if given, are non-negative with exact square roots in the generated cases",
     "algorithm 'hungarian_uno' needs networkx and cannot run offline: atom-map search is exercised through atoms_map=True and "
     "algorithm='permutative' (<= 7 atoms) only",
 ]
-EXTRA_TARGETS = ["Model/Kabsch.vo", "Model/KabschPerm.vo", "Model/KabschW.vo"]
+EXTRA_TARGETS = ["Model/Kabsch.vo", "Model/KabschPerm.vo", "Model/KabschW.vo", "Model/Rand3dRotCheck.vo"]
 REQ = ["QV.Common.Outcome", "QV.Common.AlignAlg", "QV.Common.AlignAlgQuat", "QV.Gen.Quat", "QV.Model.Mill", "QV.Model.Kabsch"]
 REQP = REQ + ["QV.Model.KabschPerm"]
 REQW = REQ + ["QV.Gen.KabschAlign", "QV.Model.KabschW"]
+REQD = REQ + ["QV.Model.KabschPerm", "QV.Model.KabschDriver"]
+REQR = REQ + ["QV.Model.Rand3dRot", "QV.Gen.Rand3dRot", "QV.Model.Rand3dRotCheck"]
 TOL = 1e-8
 
 
 def translate(ctx):
     quat_tr.generate(ctx.repo)
     kalign_tr.generate(ctx.repo)
+    rand3drot_tr.generate(ctx.repo)
 
 
 # ---------------------------------------------------------------------------------------------
@@ -245,6 +255,9 @@ def pair_for_align(rng):
     k = rng.random()
     if k < 0.08:
         C = R.copy()                                   # allclose short-cut
+    elif k < 0.2:
+        # around the boundary of the short-cut (|r - c| <= 1e-8 + 1e-5 |c|): a relative stretch and a tiny shift
+        C = R * (1.0 + rng.choice([1, -1]) * 2.0 ** -rng.randint(13, 30)) + rng.choice([0.0, 2.0 ** -rng.randint(20, 34)])
     elif k < 0.6:
         C = R @ rational_rotation(rng) + np.array([rng.randint(-80, 80) / 8 for _ in range(3)])
     else:
@@ -255,8 +268,11 @@ def pair_for_align(rng):
 def case_kalign(rng):
     from qcelemental.molutil import kabsch_align
     R, C = pair_for_align(rng)
+    Rin, Cin = R.copy(), C.copy()
     with EighTap() as tap:
-        rmsd, RR, TT = kabsch_align(R.copy(), C.copy(), weight=None)
+        rmsd, RR, TT = kabsch_align(Rin, Cin, weight=None)
+    if not (np.array_equal(Rin, R) and np.array_equal(Cin, C)):
+        return {"kind": "kalign", "R": R.tolist(), "C": C.tolist(), "error": "kabsch_align modified the geometries it was given"}, None
     if len(tap.calls) > 1:
         return {"kind": "kalign", "R": R.tolist(), "C": C.tolist(), "error": "eigh called more than once"}, None
     q = tap.calls[0][2][:, -1] if tap.calls else np.array([1.0, 0, 0, 0])
@@ -317,6 +333,22 @@ def small_labelled(rng, chiral=False):
     return R, np.array(labels)
 
 
+def gen_nearsym(rng):
+    """1-3 distinct atoms on an axis plus two H atoms related by the C2 rotation about that axis up to a small
+    asymmetry delta: the swapped ordering of the two H atoms then gives a small but non-zero RMSD
+    (~0.2 delta Angstrom), below or above the 1e-3 convergence threshold of mols_align=True"""
+    k = rng.randint(1, 3)
+    zs = rng.sample([-2.5, -1.25, 0.0, 1.125, 2.25, 3.5], k)
+    delta = rng.choice([0.002, 0.004, 0.006, 0.02, 0.06, 0.15])
+    u, w = rng.choice([1.25, 1.5, 1.75]), rng.choice([-1.0, -0.75, 0.5]) + 0.0625
+    R = np.array([[0.0, 0.0, z] for z in zs] + [[u, 0.0, w], [-u + delta, 0.0, w]])
+    labels = rng.sample(["C", "O", "N", "F"], k) + ["H", "H"]
+    order = list(range(k + 2))
+    rng.shuffle(order)
+    R = (R @ rational_rotation(rng))[order, :]
+    return R, np.array(labels)[order], delta
+
+
 def case_kselect(rng):
     """the real driver on a <=7 atom pair with algorithm='permutative'"""
     import qcelemental.molutil.align as al
@@ -336,6 +368,19 @@ def case_kselect(rng):
     cuniq = runiq[perm]
     mols_align = rng.choice([False, False, 1.0e-3, 0.05])
     rtc = rng.random() < 0.3
+    if rng.random() < 0.25:
+        # mols_align=True (a_convergence = 1e-3) on a matchable copy of a molecule without near-symmetric orderings
+        R, _ = small_labelled(rng, chiral=True)
+        n = len(R)
+        runiq = np.array(["X%d" % k for k in range(n)])
+        perm = list(range(n))
+        rng.shuffle(perm)
+        base = R.copy()
+        if mirrored and run_mirror:
+            base[:, 1] *= -1.0
+        C = (base @ rational_rotation(rng) + np.array([rng.randint(-40, 40) / 8 for _ in range(3)]))[perm, :]
+        cuniq = runiq[perm]
+        mols_align = True
     case = {"kind": "kselect", "R": R.tolist(), "C": C.tolist(), "runiq": list(map(str, runiq)), "cuniq": list(map(str, cuniq)),
             "run_mirror": run_mirror, "mols_align": mols_align, "run_to_completion": rtc}
     try:
@@ -366,7 +411,7 @@ def case_kselect(rng):
         except Exception as e2:
             case["error"] = "%s: %s" % (type(e2).__name__, e2)
             return case, None
-        aconv = 0.0 if mols_align is False else float(mols_align)
+        aconv = 0.0 if mols_align is False else (1.0e-3 if mols_align is True else float(mols_align))
         term = "(KSelect %s %s %s %s %s (Err PyAttributeError))" % (cbool(run_mirror), cbool(sup), cbool(rtc), fq(aconv),
                                                                    clist(["(%s, %s)" % (fq(c[1]), fq(c[2])) for c in cands]))
         case.update(superimposable=sup, candidates=len(cands), mirror=False, no_solution=True)
@@ -379,7 +424,7 @@ def case_kselect(rng):
         case["error"] = "returned atommap is not one of the candidate orderings"
         return case, None
     best = cands[idx[0]][2] if sol.mirror else cands[idx[0]][1]
-    aconv = 0.0 if mols_align is False else float(mols_align)
+    aconv = 0.0 if mols_align is False else (1.0e-3 if mols_align is True else float(mols_align))
     out = "(Ok (%s, %s, %s))" % (fq(best), cnat(idx[0]), cbool(bool(sol.mirror)))
     term = "(KSelect %s %s %s %s %s %s)" % (cbool(run_mirror), cbool(sup), cbool(rtc), fq(aconv),
                                           clist(["(%s, %s)" % (fq(c[1]), fq(c[2])) for c in cands]), out)
@@ -453,6 +498,136 @@ def case_kperm(rng):
             "n_orderings": len(res[1]) if res[0] == "Ok" else -1}, term
 
 
+class DriverTap:
+    """while active, records every call of kabsch_align made by B787 (arguments, result, LAPACK's top eigenvector) and every
+    AlignmentMill.align_coordinates call (recipe, result): the loop body of the real driver, trial by trial"""
+
+    def __enter__(self):
+        import qcelemental.molutil.align as al
+        from qcelemental.models import AlignmentMill
+        self.al, self.AM = al, AlignmentMill
+        self.k_orig, self.a_orig = al.kabsch_align, AlignmentMill.align_coordinates
+        self.kcalls, self.acalls = [], []
+        tap = self
+
+        def kab(rgeom, cgeom, weight=None):
+            rg, cg = np.array(rgeom, dtype=float, copy=True), np.array(cgeom, dtype=float, copy=True)
+            with EighTap() as et:
+                res = tap.k_orig(rgeom, cgeom, weight=weight)
+            q = et.calls[0][2][:, -1] if len(et.calls) == 1 else (np.array([1.0, 0, 0, 0]) if not et.calls else None)
+            tap.kcalls.append({"R": rg, "Cp": cg, "q": q, "rmsd": float(res[0]), "RR": np.array(res[1], dtype=float), "TT": np.array(res[2], dtype=float)})
+            return res
+
+        def alc(mill, geom, *, reverse=False):
+            out = tap.a_orig(mill, geom, reverse=reverse)
+            tap.acalls.append({"geom": np.array(geom, dtype=float, copy=True), "reverse": reverse, "mirror": bool(mill.mirror),
+                               "atommap": [int(x) for x in mill.atommap], "RR": np.array(mill.rotation, dtype=float),
+                               "TT": np.array(mill.shift, dtype=float), "out": np.array(out, dtype=float, copy=True)})
+            return out
+
+        al.kabsch_align = kab
+        AlignmentMill.align_coordinates = alc
+        return self
+
+    def __exit__(self, *exc):
+        self.al.kabsch_align = self.k_orig
+        self.AM.align_coordinates = self.a_orig
+        return False
+
+
+def case_kdriver(rng):
+    """a real B787 call (all labels distinct: exactly one candidate ordering; plain trial and, with run_mirror on a chiral
+    molecule, the mirror trial) observed trial by trial, against Model/KabschDriver.v [trial]"""
+    run_mirror = rng.random() < 0.6
+    R, _ = small_labelled(rng, chiral=True)
+    n = len(R)
+    runiq = np.array(["X%d" % k for k in range(n)])
+    perm = list(range(n))
+    rng.shuffle(perm)
+    base = R.copy()
+    mirrored = rng.random() < 0.5
+    if mirrored:
+        base[:, 1] *= -1.0
+    if rng.random() < 0.8:
+        C = (base @ rational_rotation(rng) + np.array([rng.randint(-40, 40) / 8 for _ in range(3)]))[perm, :]
+    else:
+        C = gen_geometry(rng, n, "generic")[perm, :]
+    cuniq = runiq[perm]
+    atoms_map = rng.random() < 0.3
+    if atoms_map:
+        C = C[[perm.index(j) for j in range(n)], :]        # undo the shuffle: the fixed map is the identity
+        cuniq = runiq
+    case = {"kind": "kdriver", "R": R.tolist(), "C": C.tolist(), "runiq": list(map(str, runiq)), "cuniq": list(map(str, cuniq)),
+            "run_mirror": run_mirror, "atoms_map": atoms_map}
+    with MirrorRedirect() as red, DriverTap() as tap:
+        rmsd, sol = red.orig(C.copy(), R.copy(), cuniq, runiq, verbose=0, atoms_map=atoms_map, mols_align=False, algorithm="permutative",
+                             run_mirror=run_mirror)
+    ks = [k for k in tap.kcalls if np.array_equal(k["R"], R)]                      # (the inner pre-check aligns onto the mirrored cgeom)
+    acs = [a for a in tap.acalls if np.array_equal(a["geom"], C) and not a["reverse"]]
+    terms = []
+    if not ks or len(ks) > 2 or len(acs) < len(ks) + 1:
+        case["error"] = "unexpected number of trials observed: %d kabsch_align calls, %d align_coordinates calls" % (len(ks), len(acs))
+        return case, []
+    for t, k in enumerate(ks):
+        a = acs[t]
+        if k["q"] is None or not (np.array_equal(a["RR"], k["RR"]) and np.array_equal(a["TT"], k["TT"])):
+            case["error"] = "trial %d: the recipe applied is not built from the kabsch_align result of that trial" % t
+            return case, []
+        mir = a["mirror"]
+        trmsd = float(np.linalg.norm(a["out"] - R) * b2a() / np.sqrt(n))
+        terms.append("(DTrial %s %s %s %s %s %s %s %s %s %s %s)" % (CTOL, cbool(mir), cpts(R), cpts(C), clist(a["atommap"], cnat), cvec(k["q"]),
+                                                                   fq(b2a()), fq(trmsd), cmat3(k["RR"]), cvec(k["TT"]), cpts(a["out"])))
+    if [a["mirror"] for a in acs[:len(ks)]] != [False, True][:len(ks)]:
+        case["error"] = "trials are not (plain, mirror) in this order"
+        return case, []
+    case.update(trials=len(ks), rmsd=float(rmsd), mirror=bool(sol.mirror))
+    return case, terms
+
+
+def case_krandrot(rng):
+    """random_rotation_matrix(deflection, randnums) against the TRANSLATED matrix algebra (Gen/Rand3dRot.v) run on numpy's own
+    sin/cos/sqrt of the angles the code prepares; and the property on the implementation: a proper rotation, the identity for
+    deflection 0"""
+    from qcelemental.util import random_rotation_matrix
+    pick = lambda: rng.choice([0.0, 1.0, 0.5, 0.25, rng.random(), rng.random()])
+    x = [pick(), pick(), pick()]
+    d = rng.choice([0.0, 1.0, 0.1, 0.5, rng.random()])
+    M = np.asarray(random_rotation_matrix(deflection=d, randnums=np.array(x)), dtype=float)
+    theta = (x[0] - 1 / 2) * d * 2 * np.pi
+    phi = x[1] * 2 * np.pi
+    z = x[2] * 2 * d
+    vals = [np.sin(phi), np.cos(phi), np.sqrt(z), np.sqrt(2.0 - z), np.sin(theta), np.cos(theta)]
+    case = {"kind": "krandrot", "randnums": x, "deflection": d, "M": M.tolist()}
+    if M.shape != (3, 3) or not np.all(np.isfinite(M)):
+        case["oracle"] = "random_rotation_matrix did not return a finite 3x3 matrix"
+        case["M"] = [[repr(float(t)) for t in row] for row in np.atleast_2d(M)]
+        return case, None
+    if np.max(np.abs(M.T @ M - np.eye(3))) > 1e-12 or abs(np.linalg.det(M) - 1.0) > 1e-12:
+        case["oracle"] = "random_rotation_matrix did not return a proper rotation"
+    elif d == 0.0 and np.max(np.abs(M - np.eye(3))) > 1e-12:
+        case["oracle"] = "random_rotation_matrix(deflection=0) is not the identity"
+    term = "(RCase %s %s %s)" % (cq(Fraction(1, 10 ** 12)), " ".join(fq(v) for v in vals), cmat3(M))
+    return case, term
+
+
+def scramble_oracle(rng):
+    """compute_scramble with its defaults (global numpy RNG): a permutation, a shift in [-3, 3)^3, a proper rotation"""
+    from qcelemental.molutil.align import compute_scramble
+    nat = rng.randint(1, 12)
+    np.random.seed(rng.randrange(1 << 30))
+    defl = rng.choice([1.0, 1.0, 0.1, 0.0])
+    m = compute_scramble(nat, deflection=defl, do_mirror=rng.random() < 0.5)
+    case = {"kind": "scramble", "nat": nat, "deflection": defl}
+    Rm = np.asarray(m.rotation, dtype=float)
+    if sorted(map(int, m.atommap)) != list(range(nat)):
+        return case, "compute_scramble: atommap is not a permutation of range(nat)"
+    if np.asarray(m.shift).shape != (3,) or np.any(np.asarray(m.shift) < -3) or np.any(np.asarray(m.shift) >= 3):
+        return case, "compute_scramble: shift outside [-3, 3)^3"
+    if Rm.shape != (3, 3) or np.max(np.abs(Rm.T @ Rm - np.eye(3))) > 1e-12 or abs(np.linalg.det(Rm) - 1.0) > 1e-12:
+        return case, "compute_scramble: rotation is not proper"
+    return case, None
+
+
 MODEL_KINDS = [("kquat", case_kquat), ("kalign", case_kalign), ("kapplied", case_kapplied), ("kselect", case_kselect)]
 
 # ---------------------------------------------------------------------------------------------
@@ -473,7 +648,39 @@ def apply_recipe(x, shift, rot, perm, mirror):
 
 
 def gen_oracle_case(rng, kind=None):
-    kind = kind or rng.choice(["rigid_fixed", "rigid_fixed", "rigid_perm", "unrelated", "mirror", "molecule"])
+    kind = kind or rng.choice(["rigid_fixed", "rigid_fixed", "rigid_perm", "unrelated", "mirror", "molecule", "near_copy", "options", "nearsym"])
+    if kind == "near_copy":
+        # a copy moved by a tiny rigid motion or stretched by a tiny factor: around the allclose short-cut of kabsch_align
+        n = rng.randint(2, 12)
+        R = gen_geometry(rng, n, rng.choice(["generic", "generic", "planar"])) + np.array([rng.randint(1, 40) / 8 for _ in range(3)])
+        return {"kind": kind, "R": R.tolist(), "angle": 10.0 ** -rng.uniform(2, 9), "axis": rng.randrange(3),
+                "shift": [rng.choice([0.0, 10.0 ** -rng.uniform(2, 9)]) for _ in range(3)],
+                "stretch": rng.choice([0.0, 0.0, 10.0 ** -rng.uniform(3, 9)])}
+    if kind == "options":
+        # the option product of B787 on a small rigid copy
+        want_chiral = rng.random() < 0.5
+        for _ in range(60):
+            R, labels = small_labelled(rng, chiral=want_chiral)
+            if len(R) <= 6:
+                break
+        else:
+            R, labels = R[:6], labels[:6]
+        n = len(R)
+        perm = list(range(n))
+        atoms_map = rng.random() < 0.5
+        if not atoms_map:
+            rng.shuffle(perm)
+        return {"kind": kind, "R": R.tolist(), "rot": rational_rotation(rng, big=True).tolist(), "shift": [rng.randint(-40, 40) / 8 for _ in range(3)],
+                "perm": perm, "labels": list(map(str, labels)), "atoms_map": atoms_map, "run_resorting": rng.random() < 0.5 and n <= 6,
+                "run_mirror": rng.random() < 0.5, "mirrored": rng.random() < 0.3, "run_to_completion": rng.random() < 0.5,
+                "mols_align": rng.choice([False, 1.0e-3, 1.0e-6, 0.05]), "pass_uniq": rng.random() < 0.5}
+    if kind == "nearsym":
+        R, labels, delta = gen_nearsym(rng)
+        n = len(R)
+        perm = list(range(n))
+        rng.shuffle(perm)
+        return {"kind": kind, "R": R.tolist(), "rot": rational_rotation(rng, big=True).tolist(), "shift": [rng.randint(-40, 40) / 8 for _ in range(3)],
+                "perm": perm, "labels": list(map(str, labels)), "delta": delta, "mols_align": rng.choice([True, True, False, 1.0e-6])}
     if kind == "rigid_fixed":
         n = rng.randint(2, 30)
         style = rng.choice(["generic", "generic", "planar", "collinear", "symmetric"])
@@ -565,6 +772,81 @@ def oracle(case):
                 return "non-collinear molecule: returned rotation is not (the transpose of) the applied one", {"returned": np.asarray(sol.rotation).tolist()}
             if np.max(np.abs(np.asarray(sol.shift) - shift)) > 1e-6:
                 return "non-collinear molecule: returned shift is not the applied one", {"returned": np.asarray(sol.shift).tolist()}
+        return None
+    if kind == "near_copy":
+        th, ax = case["angle"], case["axis"]
+        c_, s_ = math.cos(th), math.sin(th)
+        rot = np.eye(3)
+        i, j = [(1, 2), (0, 2), (0, 1)][ax]
+        rot[i, i], rot[i, j], rot[j, i], rot[j, j] = c_, -s_, s_, c_
+        cen = R.mean(axis=0)
+        C = ((R - cen) @ rot + cen + np.array(case["shift"])) * (1.0 + case["stretch"])
+        rmsd, RR, TT = kabsch_align(R.copy(), C.copy(), weight=None)
+        from qcelemental.models import AlignmentMill
+        sol = AlignmentMill(shift=TT, rotation=RR, atommap=np.arange(n), mirror=False)
+        applied = float(np.linalg.norm(sol.align_coordinates(C, reverse=False) - R) * b2a() / np.sqrt(n))
+        # documented short-cut (C12_kabsch_align_shortcut): geometries with |r - c| <= 1e-8 + 1e-5 |c| in every coordinate are
+        # reported as identical (identity recipe, RMSD 0); outside it the reported RMSD is the applied one and is optimal
+        short = bool(np.all(np.abs(R - C) <= 1e-8 + 1e-5 * np.abs(C)))
+        bound = float(np.linalg.norm(1e-8 + 1e-5 * np.abs(C)) * b2a() / np.sqrt(n)) if short else 0.0
+        if abs(applied - float(rmsd)) > bound + 1e-7:
+            return "kabsch_align: reported RMSD differs from the RMSD obtained by applying the returned rotation/shift by more than its allclose tolerance", \
+                {"reported": float(rmsd), "applied": applied, "tolerance": bound}
+        # the best proper rotation about the centroids for this pair (Kabsch via SVD, independent of the implementation)
+        Rc, Cc = R - R.mean(axis=0), C - C.mean(axis=0)
+        U_, S_, Vt_ = np.linalg.svd(Cc.T @ Rc)
+        d = np.sign(np.linalg.det(U_ @ Vt_))
+        best = math.sqrt(max(0.0, float((Rc ** 2).sum() + (Cc ** 2).sum() - 2 * (S_[0] + S_[1] + d * S_[2])))) * b2a() / math.sqrt(n)
+        if applied > best + bound + 1e-7:
+            return "kabsch_align: the returned rotation/shift are worse than the optimal proper rotation by more than the allclose tolerance", \
+                {"applied": applied, "optimal": best, "tolerance": bound}
+        return None
+    if kind == "options":
+        rot, shift, perm = np.array(case["rot"]), np.array(case["shift"]), list(case["perm"])
+        labels = np.array(case["labels"])
+        C = apply_recipe(R, shift, rot, perm, case["mirrored"])
+        cuniq = labels[perm]
+        uq = (cuniq, labels) if (case["pass_uniq"] or not case["atoms_map"]) else (None, None)
+        with MirrorRedirect() as red:
+            rmsd, sol = red.orig(C.copy(), R.copy(), uq[0], uq[1], verbose=0, atoms_map=case["atoms_map"], run_resorting=case["run_resorting"],
+                                 mols_align=case["mols_align"], run_to_completion=case["run_to_completion"], algorithm="permutative",
+                                 run_mirror=case["run_mirror"])
+        bad = check_solution(R, C, labels, cuniq, rmsd, sol, kind)
+        if bad:
+            return bad
+        if sol.mirror and not case["run_mirror"]:
+            return "mirror recipe returned although mirror matching was not requested", {}
+        # (with a fixed atom map and no resorting, B787 skips the mirror trials whenever the point set is superimposable on its
+        #  mirror image under SOME atom permutation - which the fixed map cannot use: no expectation in that corner)
+        matchable = (not case["mirrored"]) or (case["run_mirror"] and (not case["atoms_map"] or case["run_resorting"]))
+        # (a mirrored copy of a molecule that is superimposable on its mirror image is matchable by a proper rotation too)
+        # without run_to_completion the search may stop at the first ordering below the requested convergence mols_align
+        early = (not case["run_to_completion"]) and case["mols_align"] is not False and not case["atoms_map"] or \
+                (not case["run_to_completion"]) and case["mols_align"] is not False and case["run_resorting"]
+        limit = max(1e-7, float(case["mols_align"])) if early else 1e-7
+        if matchable and not rmsd <= limit:
+            return "options: a rigid copy is not recovered (RMSD not zero / not below the requested convergence)", {"rmsd": float(rmsd), "limit": limit}
+        if rmsd <= 1e-7:
+            aligned = sol.align_coordinates(C, reverse=False)
+            if np.max(np.abs(aligned - R)) > 1e-5 or (uq[0] is not None and list(sol.align_atoms(cuniq)) != list(labels)):
+                return "options: returned transformation does not map the copy onto the reference atom by atom with elements matching", {}
+        if sorted(map(int, sol.atommap)) != list(range(n)):
+            return "returned atom map is not a permutation", {"atommap": list(map(int, sol.atommap))}
+        return None
+    if kind == "nearsym":
+        rot, shift, perm = np.array(case["rot"]), np.array(case["shift"]), list(case["perm"])
+        labels = np.array(case["labels"])
+        C = apply_recipe(R, shift, rot, perm, False)
+        cuniq = labels[perm]
+        rmsd, sol = B787(C.copy(), R.copy(), cuniq, labels, verbose=0, atoms_map=False, mols_align=case["mols_align"], algorithm="permutative")
+        if not rmsd <= 1e-7:
+            return "nearsym: exact shuffled copy of a slightly asymmetric molecule not recovered (RMSD not zero)", {"rmsd": float(rmsd)}
+        bad = check_solution(R, C, labels, cuniq, rmsd, sol, kind)
+        if bad:
+            return bad
+        aligned = sol.align_coordinates(C, reverse=False)
+        if np.max(np.abs(aligned - R)) > 1e-6 or list(sol.align_atoms(cuniq)) != list(labels):
+            return "nearsym: returned transformation does not map the copy onto the reference atom by atom", {}
         return None
     if kind == "unrelated":
         import random as _r
@@ -658,6 +940,12 @@ def run_oracle(case):
 
 
 CORPUS_ORACLE = [
+    # known finding C12-mols-align-early-exit: the two H atoms are C2-related up to 0.004 bohr; shuffled copy, mols_align=True
+    {"kind": "nearsym", "R": [[0.0, 0.0, 0.0], [0.0, 0.0, 2.2], [1.5, 0.0, -1.0], [-1.496, 0.0, -1.0]], "labels": ["C", "O", "H", "H"],
+     "rot": [[0.0, -1.0, 0.0], [1.0, 0.0, 0.0], [0.0, 0.0, 1.0]], "shift": [1.0, 2.0, 3.0], "perm": [0, 1, 3, 2], "delta": 0.004, "mols_align": True},
+    {"kind": "nearsym", "R": [[0.0, 0.0, 0.0], [0.0, 0.0, 2.2], [1.5, 0.0, -1.0], [-1.496, 0.0, -1.0]], "labels": ["C", "O", "H", "H"],
+     "rot": [[0.0, -1.0, 0.0], [1.0, 0.0, 0.0], [0.0, 0.0, 1.0]], "shift": [1.0, 2.0, 3.0], "perm": [0, 1, 3, 2], "delta": 0.004, "mols_align": False},
+    {"kind": "near_copy", "R": [[1.0, 2.0, 3.0], [4.0, 2.5, 1.0], [2.0, 5.0, 4.0]], "angle": 1e-6, "axis": 2, "shift": [0.0, 0.0, 1e-7], "stretch": 0.0},
     # known finding C12-scramble-selftest-linear: H2 along z, quarter turn about z
     {"kind": "molecule", "R": [[0.0, 0.0, 1.0], [0.0, 0.0, 2.5]], "symbols": ["H", "H"],
      "rot": [[0.0, -1.0, 0.0], [1.0, 0.0, 0.0], [0.0, 0.0, 1.0]], "shift": [1.0, 2.0, 3.0], "mirror": False},
@@ -775,6 +1063,55 @@ def correspond(ctx):
     for b in badp[:4]:
         corr.disagreements.append({"stream": "model-kperm", "case": pcases[b], "impl": "see case",
                                    "model": "check_pcase = false (Model/KabschPerm.v yields other orderings or another order)"})
+    # the loop body of the real driver, trial by trial
+    dcases, dterms = [], []
+    for _ in range(600 if ctx.thorough else 60):
+        try:
+            case, ts = case_kdriver(rng)
+        except Exception as e:
+            case, ts = {"kind": "kdriver", "error": "%s: %s" % (type(e).__name__, e)}, []
+        corr.count("model-kdriver")
+        if "error" in case:
+            corr.failures.append({"stream": "model-kdriver", "case": case, "what": "B787 misbehaved while its loop was observed: " + case["error"], "observed": {}})
+            continue
+        corr.nontriv(case)
+        corr.hit("kdriver_trials_%d" % case["trials"])
+        corr.hit("kdriver_mirror_%s" % case["mirror"])
+        for t in ts:
+            dcases.append(case)
+            dterms.append(t)
+    badd, errd = coqrun.eval_bad_indices("C12drv", REQD, "", "check_dcase", dterms, shard=30 if not ctx.thorough else 90, ty="dcase")
+    corr.errors.extend(f"driver shard {k}: {e}" for k, e in errd)
+    for b in badd[:4]:
+        corr.disagreements.append({"stream": "model-kdriver", "case": dcases[b], "impl": "see case",
+                                   "model": "check_dcase = false (Model/KabschDriver.v [trial] disagrees with a trial of the real B787 loop)"})
+    # the translated random_rotation_matrix and the scramble generator
+    rcases, rterms = [], []
+    for _ in range(1500 if ctx.thorough else 150):
+        try:
+            case, term = case_krandrot(rng)
+        except Exception as e:
+            case, term = {"kind": "krandrot", "oracle": "random_rotation_matrix raised %s: %s" % (type(e).__name__, e), "M": None, "deflection": -1}, None
+        corr.count("model-krandrot")
+        corr.nontriv(case)
+        corr.hit("krandrot_deflection_%s" % ("0" if case["deflection"] == 0 else ("1" if case["deflection"] == 1 else "between")))
+        if term is not None:
+            rcases.append(case)
+            rterms.append(term)
+        if "oracle" in case:
+            corr.failures.append({"stream": "oracle-randrot", "case": case, "what": case["oracle"], "observed": {"M": case["M"]}})
+        try:
+            sc, sbad = scramble_oracle(rng)
+        except Exception as e:
+            sc, sbad = {"kind": "scramble"}, "compute_scramble raised %s: %s" % (type(e).__name__, e)
+        corr.count("oracle-scramble")
+        if sbad:
+            corr.failures.append({"stream": "oracle-scramble", "case": sc, "what": sbad, "observed": {}})
+    badr, errr = coqrun.eval_bad_indices("C12rr", REQR, "", "check_rcase", rterms, shard=75 if not ctx.thorough else 150, ty="rcase")
+    corr.errors.extend(f"randrot shard {k}: {e}" for k, e in errr)
+    for b in badr[:4]:
+        corr.disagreements.append({"stream": "model-krandrot", "case": rcases[b], "impl": "see case",
+                                   "model": "check_rcase = false (Gen/Rand3dRot.v run at Q disagrees with random_rotation_matrix)"})
     for b in bad[:6]:
         c = cases[b]
         corr.disagreements.append({"stream": "model-" + c["kind"], "case": c, "impl": "see case",
@@ -803,9 +1140,15 @@ def replay(ctx, rp):
     case = rp.get("case")
     if not isinstance(case, dict):
         return {"note": "this replay records broken proof obligations without a failing input; re-run ./check C12", "fails": True}
-    if case.get("kind") in ("rigid_fixed", "rigid_perm", "unrelated", "mirror", "molecule"):
+    if case.get("kind") in ("rigid_fixed", "rigid_perm", "unrelated", "mirror", "molecule", "near_copy", "options", "nearsym"):
         bad = run_oracle(case)
         return {"case": case, "oracle": bad[0] if bad else None, "observed": bad[1] if bad else None, "fails": bool(bad)}
+    if case.get("kind") == "krandrot":
+        from qcelemental.util import random_rotation_matrix
+        M = np.asarray(random_rotation_matrix(deflection=case["deflection"], randnums=np.array(case["randnums"])), dtype=float)
+        bad = (not np.all(np.isfinite(M))) or np.max(np.abs(M.T @ M - np.eye(3))) > 1e-12 or abs(np.linalg.det(M) - 1.0) > 1e-12 or \
+            (case["deflection"] == 0.0 and np.max(np.abs(M - np.eye(3))) > 1e-12)
+        return {"case": case, "observed": {"M": M.tolist()}, "fails": bool(bad)}
     if case.get("kind") == "kperm":
         import qcelemental.molutil.align as al
         from qcelemental.exceptions import ValidationError
@@ -841,10 +1184,29 @@ def _known_scramble_linear(f):
             and bool(is_collinear(np.array(case["R"], dtype=float))))
 
 
-KNOWN = {"C12-scramble-selftest-linear": _known_scramble_linear}
+def _known_early_exit(f):
+    # narrow: mols_align=True on a near-symmetric molecule, the driver raised AssertionError, and the candidate loop (recomputed
+    # per ordering) indeed meets an inexact ordering below the 1e-3 convergence threshold before the exact one
+    case = f.get("case") or {}
+    if not (case.get("kind") == "nearsym" and case.get("mols_align") is True and str(f.get("what", "")).startswith("implementation raised AssertionError")):
+        return False
+    try:
+        R = np.array(case["R"], dtype=float)
+        labels = np.array(case["labels"])
+        perm = list(case["perm"])
+        C = apply_recipe(R, np.array(case["shift"]), np.array(case["rot"]), perm, False)
+        cands = candidate_rmsds(R, C, labels, labels[perm], False)
+    except Exception:
+        return False
+    below = [c[1] for c in cands if c[1] < 1.0e-3]
+    return bool(below) and below[0] > 5.0e-5 and min(c[1] for c in cands) <= 1.0e-7
+
+
+KNOWN = {"C12-scramble-selftest-linear": _known_scramble_linear, "C12-mols-align-early-exit": _known_early_exit}
 
 TECHNIQUE = ("Coq proofs (ring identities against translated source polynomials, induction over point lists, a Rayleigh-quotient "
-             "argument from an eigh specification) over a Gallina model + translator + differential correspondence")
+             "argument from an eigh specification, loop invariants of the candidate loop, a composition theorem for the whole "
+             "'permutative' driver) over a Gallina model + two fail-closed translators + differential correspondence")
 DESIGN_REF = "DESIGN.md §6 C12"
 LEVEL_TEXT = (
     "Machine-checked (Coq 8.16.1) theorems. Against the polynomial terms regenerated on every run from the F[i,j]/U[i,j] "
@@ -855,25 +1217,53 @@ LEVEL_TEXT = (
     "C12_kabsch_optimal_over_quaternions, C12_kabsch_minimum_value, C12_every_proper_rotation_is_U (surjectivity of the quaternion "
     "map, by nsatz against the translated U), hence the FULL statements C12_kabsch_optimal_over_proper_rotations and "
     "C12_kabsch_align_proper_and_optimal (returned rotation proper; reported residual <= that of any other proper rotation about the "
-    "centroids), C12_reported_rmsd_is_applied_rmsd, C12_recovers_rigid_copy (for ANY proper rotation and shift: residual exactly 0, the "
+    "centroids), C12_kabsch_align_rotation_always_proper, C12_kabsch_align_shortcut (identity recipe within the allclose tolerance), "
+    "C12_reported_rmsd_is_applied_rmsd, C12_recovers_rigid_copy (for ANY proper rotation and shift: residual exactly 0, the "
     "returned recipe maps the copy back atom by atom, and for non-collinear molecules the returned rotation/shift are the applied "
-    "ones). Driver loop: C12_mirror_only_on_request, C12_selected_rmsd_is_minimal. Model tied to molutil/align.py by the translator "
-    "(F, U) and by differential execution at K = Q of kabsch_quaternion (F, eigh spec on LAPACK's output, U), kabsch_align (rotation, "
-    "shift, RMSD), the applied residual and the B787 selection loop (incl. the mirror pass); the property itself is evaluated on the "
-    "implementation (rigid copies 2-30 atoms x rotations x shifts x permutations, optimality vs random rotations and vs lambda_max, "
-    "chiral molecules vs mirror images with run_mirror on/off).")
+    "ones), C12_weighted_kabsch_align_optimal, C12_translated_kabsch_align_is_model (the let-chain generated from the body of "
+    "kabsch_align is the model). Candidate loop of B787 (any ordered carrier): C12_mirror_only_on_request, C12_selected_rmsd_is_minimal, "
+    "C12_selected_rmsd_is_minimal_or_converged (any setting), C12_selected_solution_attains_reported_rmsd, "
+    "C12_no_solution_only_if_no_trial_below_100, and C12_selected_rmsd_is_minimal_with_early_exit_refuted (witness replayed: known "
+    "finding C12-mols-align-early-exit). Atom-map search: C12_candidates_are_label_preserving_permutations, "
+    "C12_true_ordering_is_a_candidate, C12_rigid_motion_preserves_distances. END TO END for algorithm='permutative' "
+    "(Model/KabschDriver.v = validation + candidate generator + loop body + selection): C12_driver_recovers_shuffled_rigid_copy (a copy "
+    "moved by any proper rotation and shift and atom-shuffled is returned with the RMSD of a zero residual - or below the requested "
+    "convergence when the loop may stop early -, by a label-preserving permutation, no mirror recipe unless requested, reported = "
+    "applied RMSD, and mapped back atom by atom up to the 8-decimal rounding of the RMSD), C12_driver_errors. Scramble generator: "
+    "C12_random_rotation_is_proper (the matrix random_rotation_matrix builds, translated from the source, is a proper rotation for all "
+    "random numbers and every deflection in [0,1]), C12_random_rotation_domain, C12_random_rotation_no_deflection. Model tied to "
+    "molutil/align.py by the translators (F, U; body of kabsch_align) and by differential execution at K = Q of kabsch_quaternion (F, "
+    "eigh spec on LAPACK's output, U), kabsch_align (rotation, shift, RMSD; weighted too; copies near the allclose short-cut), the "
+    "applied residual, the candidate generator (every ordering, in order) and the B787 selection loop (incl. the mirror pass and "
+    "mols_align=True); the property itself is evaluated on the implementation (rigid copies 2-30 atoms x rotations x shifts x "
+    "permutations, optimality vs random rotations, vs lambda_max and vs an SVD Kabsch, chiral molecules vs mirror images with "
+    "run_mirror on/off, the option product of B787, near-symmetric molecules around the 1e-3 convergence threshold, near copies "
+    "around the allclose short-cut, Molecule.align/scramble).")
 LEVEL_NOTE = (
-    "No theorem is _partial. LAPACK eigh is specified, not verified: its specification (F V = V diag(w), V^T V = V V^T = I, w "
-    "ascending) is a hypothesis of the real-number theorems, instance-level (about the one matrix kabsch_align hands to eigh), and is "
+    "Clause map: proper rotation -> C12_U_proper, C12_kabsch_align_rotation_always_proper; reported = applied RMSD -> "
+    "C12_reported_rmsd_is_applied_rmsd, C12_kabsch_align_shortcut, C12_selected_solution_attains_reported_rmsd; optimal among all "
+    "proper rotations -> C12_kabsch_align_proper_and_optimal (+ residual_identity, top_eigvec_optimal, every_proper_rotation_is_U), "
+    "C12_selected_rmsd_is_minimal(_or_converged); recovery of rigid copies (fixed map, incl. applied rotation/shift for non-collinear "
+    "molecules) -> C12_recovers_rigid_copy; shuffled copies with elements matching -> C12_driver_recovers_shuffled_rigid_copy (+ "
+    "candidates/true-ordering theorems); mirror only on request -> C12_mirror_only_on_request and the driver theorem; errors -> "
+    "C12_driver_errors, C12_no_solution_only_if_no_trial_below_100. Only correspondence/oracle: Molecule.align/scramble wrappers, "
+    "compute_scramble (oracle: permutation, shift range, proper rotation), the applied rotation under a symmetry-equivalent atom map, "
+    "chirality itself; scramble generator -> C12_random_rotation_is_proper. "
+    "_refuted: C12_selected_rmsd_is_minimal_with_early_exit_refuted (mols_align=True stops at the first ordering below 1e-3 A; on a "
+    "slightly asymmetric molecule that is a wrong ordering and B787 then fails its own 1e-4 checks: known finding). No theorem is "
+    "_partial. LAPACK eigh is specified, not verified: its specification (F V = V diag(w), V^T V = V V^T = I, w "
+    "ascending) is a hypothesis of the real-number theorems, instance-level (about the one matrix kabsch_align hands to eigh; in the "
+    "driver theorem only for the true ordering), and is "
     "checked in exact arithmetic (tol 1e-8) on every (F, w, V) of the correspondence cases. kabsch_align's allclose short-cut "
     "(returns identity and RMSD 0 when |R-C| <= 1e-8 + 1e-5|C|) is modelled; the optimality/recovery theorems are about the "
-    "non-short-cut path (on the short-cut path the reported RMSD 0 differs from the applied one by at most that tolerance). The "
-    "atom-map search itself ('permutative' candidate filter) is not modelled: the model takes the candidate orderings and their "
-    "RMSDs as given and the oracle checks recovery on the implementation (<= 7 atoms). Weighted alignment, 'hungarian_uno' (needs "
+    "non-short-cut path (on the short-cut path the reported RMSD 0 differs from the applied one by at most that tolerance: "
+    "C12_kabsch_align_shortcut). In Model/KabschDriver.v the RMSD-from-residual map (sqrt, bohr2angstroms, rounding to 8 decimals) is a "
+    "parameter of which only monotonicity is assumed; the composition is a hand-written reading of the loop of B787 whose parts are "
+    "tied separately. 'hungarian_uno' (needs "
     "networkx, absent offline; only covered through C14), plotting and the pNRE self-checks of B787 are outside the model; with "
     "run_mirror the inner superimposability pre-check is redirected to algorithm='permutative' for the runs of this check. Binary64 "
-    "rounding is outside the model (exact rationals, tolerance 1e-8). Observed, outside the property: B787(algorithm='permutative') on "
+    "rounding is outside the model (exact rationals, tolerance 1e-8). B787(algorithm='permutative') on "
     "unrelated geometries for which no ordering passes the distance filter fails with AttributeError (hold_solution is None) - "
-    "modelled as Err PyAttributeError. Axioms: ring-level and driver theorems are closed under the global context; the real-number "
-    "theorems depend on the standard Reals axioms (ClassicalDedekindReals.sig_forall_dec, sig_not_dec, "
+    "modelled as Err PyAttributeError. Axioms: ring-level, loop and candidate-generator theorems are closed under the global context; "
+    "the real-number theorems depend on the standard Reals axioms (ClassicalDedekindReals.sig_forall_dec, sig_not_dec, "
     "FunctionalExtensionality.functional_extensionality_dep) only.")
